@@ -416,13 +416,13 @@ def _envelope_fault(doc, ch, reencoded=False):
         nisa = docgen.GSeg(isa[-1].node, [list(x) for x in isa[-1].vals], list(isa[-1].chain))
         niea = docgen.GSeg(iea[-1].node, [list(x) for x in iea[-1].vals], list(iea[-1].chain))
         nisa.vals[12] = [ctl]
-        if ch.chance(.5) and len(nisa.vals) > 11:
+        if ch.chance(.5) and len(nisa.vals) > 11 and not reencoded:
             # ... of the other version: the acknowledgement is still the one of the last group
             if nisa.vals[11] == ['00401']:
-                # (ISA11 is rendered as the repetition separator in use; where the text is re-encoded, possibly under the basic
-                # character set, that separator is data of ISA11 and the outcome would depend on it: C12's statement excludes that)
-                if not reencoded:
-                    nisa.vals[11], nisa.vals[10] = ['00501'], ['^']
+                # (not where the text is re-encoded: the separators of one version are data of the other - ^ as component
+                # separator of a 00401 header, the repetition separator under the basic character set -, and the outcome would
+                # depend on them, which C12's statement excludes)
+                nisa.vals[11], nisa.vals[10] = ['00501'], ['^']
             else:
                 nisa.vals[11], nisa.vals[10] = ['00401'], ['U']
         niea.vals[0] = ['0']
